@@ -63,10 +63,27 @@ def run(tier):
         u = vv.text(rng, 18) if (vv and vv.by_op and rng.random() < 0.6) else corpus.rand_input(rng, 18)
         return u, rng.choice([0, 0, 1, 4, 128, 4 | 64])
 
+    LOOKAHEAD_OPS = (90, 93, 94)        # largesign, joinnum, joinword: rules that look at the word behind them
     for ti, t in enumerate(tables):
         # single-argument toggles on many table-specific inputs (rule strings of the table itself): none present vs
         # exactly one present; the cursor at several positions
         ops = []
+        # rules that look ahead into the next word (joinword, largesign): the cursor at EVERY position of a two-word
+        # phrase "<such a word> <another rule string>" (seeded change C10-B: the look-ahead consulted the cursor
+        # without the compbrl mode bits)
+        vv0 = vocab.get(t)
+        la = [w for op_ in LOOKAHEAD_OPS for (w, _d) in (vv0.by_op.get(op_, []) if vv0 else [])]
+        extra_inputs = []
+        for _ in range(min(3, len(la))):
+            w1 = rng.choice(la)
+            w2, _d = vv0.sample_word(rng, 8)
+            if w1 and w2:
+                extra_inputs.append((w1 + [0x20] + w2)[:20])
+        for u in extra_inputs:
+            grp = []
+            for am, cur in [(0, 0)] + [(16, c) for c in range(len(u))]:
+                grp.append(st.gen_fwd_op(rng, t, inp=u, mode=0, cap=32 * len(u) + 256, argmask=am, cursor=cur))
+            ops.append(grp)
         for _ in range(nt):
             for back in (False, True):
                 u, mode = gen_input(t, back)
